@@ -55,7 +55,12 @@ Deg(C, a) == Cardinality({e \in C : e[1] = a \/ e[2] = a})
 \* neighbourhood / closure: re-stated from C17 BondGraph (Nbrs, Grow, Reach)
 Nb(C, a) == {e[2] : e \in {x \in C : x[1] = a}} \cup {e[1] : e \in {x \in C : x[2] = a}}
 GrowIn(C, S) == S \cup UNION {Nb(C, a) : a \in S}
-ReachIn(C, r) == FoldLeft(LAMBDA S, k : GrowIn(C, S), {r}, [k \in 1..Cardinality(Verts(C)) |-> k])
+\* the atoms reachable from r over the edges C: least fixed point of the neighbourhood closure
+RECURSIVE GrowFix(_, _)
+GrowFix(C, S) == LET S2 == GrowIn(C, S) IN IF S2 = S THEN S ELSE GrowFix(C, S2)
+ReachIn(C, r) == GrowFix(C, {r})
+\* the same by a fixed number of rounds (as in C17 BondGraph.Reach); equal by InvCycles
+ReachRounds(C, r) == FoldLeft(LAMBDA S, k : GrowIn(C, S), {r}, [k \in 1..Cardinality(Verts(C)) |-> k])
 ComponentsOf(C) == {ReachIn(C, r) : r \in Verts(C)}
 \* cyclomatic number of the graph spanned by the edges C (isolated atoms do not count)
 Mu(C) == Cardinality(C) - Cardinality(Verts(C)) + Cardinality(ComponentsOf(C))
@@ -104,8 +109,10 @@ SizeHist(S, n) == [k \in 1..n |-> Cardinality({C \in S : Cardinality(C) = k})]
 LenHist(rings, n) == [k \in 1..n |-> Cardinality({m \in DOMAIN rings : Len(rings[m]) = k})]
 TotalSize(S) == FoldSet(LAMBDA C, acc : Cardinality(C) + acc, 0, S)
 
-\* the cycle space from any basis given as edge sets; its simple cycles
-SimpleOfSpan(basis) == {C \in SpanOf(basis) : IsCycle(C)}
+\* the cycle space from any basis given as edge sets (built member by member; equal to SpanOf
+\* by InvMinBasis); its simple cycles
+CycleSpace(basis) == FoldSet(LAMBDA c, sp : SpanAdd(sp, c), {{}}, basis)
+SimpleOfSpan(basis) == {C \in CycleSpace(basis) : IsCycle(C)}
 
 (* ------------------------------------------------------------------ declarative: aromatic rings *)
 \* the edge set of a ring given as a list of atoms (consecutive atoms and last-first are bonded)
@@ -134,11 +141,12 @@ RingAtoms(E, K) == Verts(RingBonds(E, K))
 (* ------------------------------------------------------------------ declarative: rotatable bonds *)
 \* documentation: 1. single bond  2. the connected atoms are not within the same cycle
 \*                3. both connected atoms are not terminal
-SameCycle(E, K, i, j) == \E C \in CyclesIn(E, K) : i \in Verts(C) /\ j \in Verts(C)
+SameCycle(cs, i, j) == \E C \in cs : i \in Verts(C) /\ j \in Verts(C)
 DeclRotatable(B, K) ==
+  LET cs == CyclesIn(EdgesOf(B), K) IN
   {b \in B : /\ b[3] = SINGLE
              /\ Degree(B, b[1]) > 1 /\ Degree(B, b[2]) > 1
-             /\ ~SameCycle(EdgesOf(B), K, b[1], b[2])}
+             /\ ~SameCycle(cs, b[1], b[2])}
 \* the same with "the bond is a bridge" (no K needed: used for recorded inputs of any size)
 BridgeRotatable(B) ==
   {b \in B : /\ b[3] = SINGLE
@@ -251,6 +259,8 @@ Law_MinBasisIsBasis(E, K, n) ==
   /\ mb \subseteq CyclesIn(E, K)
   /\ Independent(mb)
   /\ Cardinality(mb) <= 7 => (IndependentDecl(mb) /\ CyclesIn(E, K) \subseteq SpanOf(mb))
+  /\ Cardinality(mb) <= 7 => CycleSpace(mb) = SpanOf(mb)
+  /\ SimpleOfSpan(mb) = CyclesIn(E, K)
 \* ... of minimum total size among ALL bases (brute force; only where that is affordable)
 ChooseK(S, k) == {T \in SUBSET S : Cardinality(T) = k}
 Law_GreedyMinimum(E, K, n) ==
@@ -319,4 +329,12 @@ ASSUME RingEdges(<<0, 2, 1>>) = {<<0, 1>>, <<0, 2>>, <<1, 2>>}
 ASSUME BridgeRotatable({<<0, 1, 1>>, <<1, 2, 1>>, <<2, 3, 1>>}) = {<<1, 2, 1>>}
 ASSUME BridgeRotatable({<<0, 1, 1>>, <<1, 2, 1>>, <<2, 3, 1>>, <<0, 3, 1>>}) = {}
 ASSUME ImplRotatable(4, <<<<0, 1, 1>>, <<1, 2, 1>>, <<2, 3, 1>>>>) = <<<<1, 2, 1>>>>
+\* documentation of find_rotatable_bonds: tyrosine with hydrogens (atoms numbered N CA CB CG CD1 CE1
+\* CZ OH CE2 CD2 C OXT O, then the hydrogens) -> N-CA, CA-C, CA-CB, C-OXT, CB-CG, CZ-OH
+TyrosineH ==
+  {<<0,1,1>>, <<1,2,1>>, <<2,3,1>>, <<3,4,5>>, <<4,5,6>>, <<5,6,5>>, <<6,7,1>>, <<6,8,6>>, <<8,9,5>>,
+   <<1,10,1>>, <<10,11,1>>, <<10,12,2>>, <<3,9,6>>, <<0,13,1>>, <<0,14,1>>, <<1,15,1>>, <<2,16,1>>,
+   <<2,17,1>>, <<4,18,1>>, <<5,19,1>>, <<7,20,1>>, <<8,21,1>>, <<9,22,1>>, <<11,23,1>>}
+ASSUME EdgesOf(BridgeRotatable(TyrosineH)) = {<<0,1>>, <<1,10>>, <<1,2>>, <<10,11>>, <<2,3>>, <<6,7>>}
+ASSUME LenHist(ImplRings(24, SortedRows(TyrosineH)), 24)[6] = 1 /\ Mu(AromEdgesOf(TyrosineH)) = 1
 =============================================================================
